@@ -187,4 +187,140 @@ example : decodeChunked 10 (encodeChunked [[1, 13, 10, 2], [7]]) = some [1, 13, 
 example : (parseRequest ([71, 69, 84, 32, 47, 120, 32, 72, 84, 84, 80, 47, 49, 46, 49, 13, 10, 67, 111, 110, 116, 101, 110, 116, 45, 76, 101,
     110, 103, 116, 104, 58, 32, 51, 13, 10, 13, 10, 97, 98, 99, 100, 101, 102])).map (·.body) = some [97, 98, 99] := by decide +kernel
 
+/-! ### the header is found independently of fragmentation -/
+
+theorem isPrefixOf_append_of_le (p l f : Bytes) (h : p.length ≤ l.length) : p.isPrefixOf (l ++ f) = p.isPrefixOf l := by
+  induction p generalizing l with
+  | nil => simp
+  | cons a p ih =>
+    cases l with
+    | nil => simp at h
+    | cons b l =>
+      simp only [List.cons_append, List.isPrefixOf]
+      rw [ih l (by simpa using h)]
+
+theorem findSub_none_cons (pat : Bytes) (b : Nat) (r : Bytes) (h : findSub pat (b :: r) = none) :
+    pat.isPrefixOf (b :: r) = false ∧ findSub pat r = none := by
+  simp only [findSub] at h
+  cases hq : pat.isPrefixOf (b :: r) with
+  | true => rw [hq] at h; simp at h
+  | false =>
+    rw [hq] at h
+    refine ⟨rfl, ?_⟩
+    cases hf : findSub pat r with
+    | none => rfl
+    | some v => rw [hf] at h; simp at h
+
+/-- **look-back lemma**: if the bytes received so far contain no terminator, the first terminator of `buf ++ f` is found by searching
+    only the last 3 bytes of `buf` followed by `f` -/
+theorem findSub_lookback (buf f : Bytes) (h : findSub TERM buf = none) :
+    findSub TERM (buf ++ f) = (findSub TERM (buf.drop (buf.length - 3) ++ f)).map (· + (buf.length - 3)) := by
+  induction buf with
+  | nil => simp
+  | cons b r ih =>
+    obtain ⟨hp, hr⟩ := findSub_none_cons TERM b r h
+    by_cases hl : (b :: r).length ≤ 3
+    · have : (b :: r).length - 3 = 0 := by omega
+      rw [this]; simp
+    · have hlen : TERM.length ≤ (b :: r).length := by simp [TERM] at hl ⊢; omega
+      have e1 : (b :: r).length - 3 = (r.length - 3) + 1 := by simp at hl ⊢; omega
+      rw [e1, List.drop_succ_cons]
+      simp only [List.cons_append, findSub]
+      have hp2 : TERM.isPrefixOf (b :: (r ++ f)) = false := by
+        have := isPrefixOf_append_of_le TERM (b :: r) f hlen
+        simp only [List.cons_append] at this
+        rw [this]; exact hp
+      rw [hp2]
+      simp only [Bool.false_eq_true, if_false]
+      rw [ih hr]
+      cases findSub TERM (List.drop (r.length - 3) r ++ f) with
+      | none => rfl
+      | some v => simp; omega
+
+theorem isPrefixOf_length (p l : Bytes) (h : p.isPrefixOf l = true) : p.length ≤ l.length := by
+  induction p generalizing l with
+  | nil => simp
+  | cons a p ih =>
+    cases l with
+    | nil => simp [List.isPrefixOf] at h
+    | cons b l =>
+      simp only [List.isPrefixOf, Bool.and_eq_true] at h
+      have := ih l h.2
+      simp only [List.length_cons]; omega
+
+theorem findSub_some_bound (pat : Bytes) : ∀ (l : Bytes) (v : Nat), findSub pat l = some v → v + pat.length ≤ l.length
+  | [], v, h => by
+    simp only [findSub] at h
+    split at h
+    · next hp => injection h with h; subst h; simp [hp]
+    · exact absurd h (by simp)
+  | b :: r, v, h => by
+    simp only [findSub] at h
+    cases hq : pat.isPrefixOf (b :: r) with
+    | true =>
+      rw [hq] at h; simp only [if_true] at h; injection h with h; subst h
+      have := isPrefixOf_length pat (b :: r) hq
+      omega
+    | false =>
+      rw [hq] at h
+      simp only [Bool.false_eq_true, if_false] at h
+      cases hf : findSub pat r with
+      | none => rw [hf] at h; simp at h
+      | some w =>
+        rw [hf] at h; simp only [Option.map_some] at h; injection h with h
+        have := findSub_some_bound pat r w hf
+        simp; omega
+
+/-- the first occurrence stays the first occurrence when more bytes follow -/
+theorem findSub_append_some (pat : Bytes) : ∀ (l g : Bytes) (v : Nat), findSub pat l = some v → findSub pat (l ++ g) = some v
+  | [], g, v, h => by
+    simp only [findSub] at h
+    split at h
+    · next hp => injection h with h; subst h; subst hp; cases g <;> simp [findSub]
+    · exact absurd h (by simp)
+  | b :: r, g, v, h => by
+    have hb := findSub_some_bound pat (b :: r) v h
+    have hpre : pat.isPrefixOf (b :: (r ++ g)) = pat.isPrefixOf (b :: r) := by
+      have := isPrefixOf_append_of_le pat (b :: r) g (by omega)
+      simpa using this
+    simp only [findSub] at h
+    simp only [List.cons_append, findSub, hpre]
+    cases hq : pat.isPrefixOf (b :: r) with
+    | true => rw [hq] at h; simpa using h
+    | false =>
+      rw [hq] at h
+      simp only [Bool.false_eq_true, if_false] at h ⊢
+      cases hf : findSub pat r with
+      | none => rw [hf] at h; simp at h
+      | some w =>
+        rw [hf] at h
+        rw [findSub_append_some pat r g w hf]
+        exact h
+
+/-- **C13, the header is found independently of fragmentation.** For every split of the received bytes into fragments (any
+    sizes, including a terminator cut anywhere) the incremental search of `append_bytes` — which looks only at each new fragment and
+    the 3 bytes before it — reports the end of the header exactly where the first `CRLF CRLF` of the concatenated bytes ends, as soon
+    as the fragment containing its last byte has arrived, and reports nothing if there is none. -/
+theorem C13_incremental_search (frags : List Bytes) (buf : Bytes) (h : findSub TERM buf = none) :
+    scanFrags buf frags = (findSub TERM (buf ++ frags.flatten)).map (· + 4) := by
+  induction frags generalizing buf with
+  | nil => simp [scanFrags, h]
+  | cons f fs ih =>
+    simp only [scanFrags, appendFind]
+    have hl := findSub_lookback buf f h
+    cases hf : findSub TERM (buf.drop (buf.length - 3) ++ f) with
+    | some v =>
+      rw [hf] at hl
+      simp only [Option.map_some] at hl ⊢
+      -- the terminator lies inside buf ++ f: further fragments do not move the first occurrence
+      have := findSub_append_some TERM (buf ++ f) fs.flatten _ hl
+      rw [List.flatten_cons, ← List.append_assoc, this]
+      simp
+    | none =>
+      rw [hf] at hl
+      simp only [Option.map_none] at hl ⊢
+      rw [ih (buf ++ f) hl]
+      simp [List.append_assoc]
+
+
 end Photon.Http
